@@ -15,6 +15,10 @@ CLAIMED = {
             "deterministic simulation, seeded history sampling vs. BEP44 state machine"),
     "C05": ("§4 C05", "Seeded exploration: server- and client-mode victims in a live network receive a barrage from a structured hostile-datagram catalogue (18 message kinds x every field x 18 type/length confusions, walked across runs), grammar-random and byte-level input, corruption of real traffic, and Byzantine replies to their own in-flight requests; verdict = no actor panic, no API-future panic, process alive, ping and local calls work afterwards.",
             "deterministic simulation with injected/corrupted/Byzantine datagram faults, liveness + panic oracle"),
+    "C06": ("§4 C06", "Seeded exploration of overlapping API calls (12 kinds, colliding targets) under loss, duplication, delay beyond the timeout, corruption, silent/garbage/error-answering peers, caller stalls and clock skew; every future must resolve and every stream end by a horizon computed per run from the reported request timeout and the number of addresses contacted; panic-free; streams yield at most one item per accepted value-bearing reply.",
+            "deterministic simulation with network/peer/clock fault injection, bounded-liveness and exactly-once oracle"),
+    "C17": ("§4 C17", "Seeded exploration of the placement of a second put_mutable relative to the first call's lifetime (same step, lookup, store phase, after completion; decided exactly from step counters) x item relation x cas x storer reply family, plus overlapping non-mutable puts; rule-table oracle.",
+            "deterministic simulation, seeded call-placement sampling vs. rule table"),
     "C08": ("§4 C08", "Seeded exploration of ack/error/silence plans over 1..12 scripted storers plus real servers under loss, duplication and late replies, and >255-replica puts through extra_nodes with exactly 255/256/257/511/512/513 ackers; Ok/CasFailed/NotMostRecent/query-error verdict and the token-bearing-targets rule recomputed from the datagram trace; real ackers read back.",
             "deterministic simulation with loss/duplication/delay faults and scripted storers, trace-recomputed verdict"),
     "C09": ("§4 C09", "Seeded exploration with a spoofing adversary that sees every transaction id: responses/errors from wrong port, adjacent IP or unrelated address, with live or guessed tids, before/between/after the genuine reply, plus duplication of genuine replies; marker oracle (no contact to marker nodes, no marker in routing tables or address votes, no spoofed value or ack counted) and genuine-reply-still-accepted / consumed-once oracle.",
@@ -29,7 +33,7 @@ NOT_APPLICABLE = {
 }
 
 # properties designed in DESIGN.md whose checks are not built yet are listed as not claimed (reason says so)
-PENDING = ["C01", "C06", "C07", "C11", "C12", "C13", "C14", "C17", "C18", "C20"]
+PENDING = ["C01", "C07", "C11", "C12", "C13", "C14", "C18", "C20"]
 
 checks = []
 for pid, (ref, text, tech) in sorted(CLAIMED.items()):
